@@ -63,6 +63,8 @@ func main() {
 		modeC04(*thorough)
 	case "c15live":
 		modeC15Live()
+	case "c09":
+		modeC09()
 	case "c13":
 		modeC13(*rules, *thorough)
 	case "c08":
